@@ -139,13 +139,19 @@ theorem add_sub_contract (B : Nat) (hB : 2 ≤ B) (m : Mode) (c : Coarse) (hc : 
       ((ctxAddSub B m c dub p lhs rhs rs).1.toRat B) (ctxAddSub B m c dub p lhs rhs rs).2 :=
   addSub_fits_contract B hB m c hc dub hdub p hp lhs rhs rs hrs hl hr hwl hwr hld hrd
 
-/-- the operators `a + b`, `a - b` (all four ownership forms and the assign forms; `opAddSub`: a zero operand
-    returns the other one unrounded) return the value of `Context::add` / `sub` at `Context::max` precision
-    whenever the operands fit it — so `add_sub_contract` is also a theorem about the operators -/
+/-- the operators `a + b`, `a - b` (all four ownership forms and the assign forms; `opAddSub`: since fix 164990d a
+    zero operand returns the other one ROUNDED to the `Context::max` precision) return the value of `Context::add` /
+    `sub` at that precision for ALL operands — so `add_sub_contract` is also a theorem about the operators.
+    (Rounds 3–5 carried `lhs.digits ≤ p`, `rhs.digits ≤ p` here only because the zero-operand arms returned the
+    other operand unrounded; the defect is repaired and the hypotheses are gone.) -/
 theorem operators_add_sub (B : Nat) (m : Mode) (c : Coarse) (dub : Int → Nat) (p : Nat) (lhs rhs : FRepr) (rs : Int)
-    (hrs : rs = 1 ∨ rs = -1) (hld : lhs.digits B ≤ p) (hrd : rhs.digits B ≤ p) :
+    (hrs : rs = 1 ∨ rs = -1) :
     opAddSub B m c dub p lhs rhs rs = (ctxAddSub B m c dub p lhs rhs rs).1 :=
-  opAddSub_eq_ctx B m c dub p lhs rhs rs hrs hld hrd
+  opAddSub_eq_ctx_all B m c dub p lhs rhs rs hrs
+
+/-- non-vacuity of the dropped hypothesis: `0 + 12345` at `Context::max` precision 2 (HalfEven, base 10) is the
+    ROUNDED `12e3` for the operators as for `Context::add` (it was the unrounded 12345 before the fix) -/
+example : opAddSub 10 .halfEven coarseNone (fun v => digitsI 10 v) 2 ⟨0, 0⟩ ⟨12345, 0⟩ 1 = ⟨12, 3⟩ := by decide +kernel
 
 /-- `Context::repr_round_sum(signif, exp, (low, lk), is_sub)` in general: the contract for the exact value
     `(signif·B^lk + low)·B^(exp − lk)` under the guard-digit hypothesis `hguard` — which the four
